@@ -100,6 +100,26 @@ func c03Errors(c *Ctx, p *Prog) {
 				}
 			}
 			if len(nonNilStarts) == 0 {
+				// the error may be handed to a converter in the same package (error -> *SyntaxError) whose result is tested
+				if conv := errorConverterResult(ev); conv != nil {
+					for _, r := range *conv.Referrers() {
+						if bo, ok := r.(*ssa.BinOp); ok && (bo.Op == token.EQL || bo.Op == token.NEQ) {
+							if k, ok := bo.Y.(*ssa.Const); ok && k.IsNil() {
+								for _, r2 := range *bo.Referrers() {
+									if ifi, ok := r2.(*ssa.If); ok {
+										if bo.Op == token.EQL {
+											nonNilStarts = append(nonNilStarts, ifi.Block().Succs[1])
+										} else {
+											nonNilStarts = append(nonNilStarts, ifi.Block().Succs[0])
+										}
+									}
+								}
+							}
+						}
+					}
+				}
+			}
+			if len(nonNilStarts) == 0 {
 				c.Bad(R, key, p.pos(call.Pos()), "the parse error is never compared with nil")
 				return
 			}
@@ -776,7 +796,14 @@ func c03Port(c *Ctx, R string) {
 		}
 		return pureBoth[p.SSA.FuncValue(f)]
 	}
-	defer func() { sibPure = nil }()
+	paired := map[*ssa.Function]bool{}
+	for _, pr := range pairs {
+		paired[pr.a], paired[pr.b] = true, true
+	}
+	sibInline = func(f *ssa.Function) bool {
+		return f.Pkg != nil && (f.Pkg.Pkg.Path() == modPath+"/benchfmt/internal/bytesconv" || f.Pkg.Pkg.Path() == "strconv") && !paired[f] && f.Parent() == nil && len(naturalLoops(f)) == 0 && len(f.Blocks) <= 12
+	}
+	defer func() { sibPure, sibInline = nil, nil }()
 	nrec := 0
 	for _, name := range c03Carried {
 		pr, ok := pairs[name]
@@ -878,4 +905,77 @@ func c03Saturate(c *Ctx, p *Prog) {
 		}
 	})
 	c.Check(cmp >= 2, R, "ParseInt:cutoff-comparisons", p.pos(pi.Pos()), "ParseInt compares the magnitude with the cutoff for both signs", "ParseInt no longer compares ParseUint's magnitude with the signed cutoff for both signs")
+}
+
+// errorConverterResult: ev is passed to a function of the same package that tests that parameter against nil and
+// returns a non-nil value on every return reached only when it is non-nil (an error-to-syntax-error converter);
+// the call's result then stands for the error.
+func errorConverterResult(ev ssa.Value) ssa.Value {
+	refs := ev.Referrers()
+	if refs == nil {
+		return nil
+	}
+	for _, r := range *refs {
+		call, ok := r.(*ssa.Call)
+		if !ok {
+			continue
+		}
+		h := call.Call.StaticCallee()
+		if h == nil || h.Blocks == nil || h.Pkg == nil || h.Pkg.Pkg.Path() != bfPkg || h.Signature.Results().Len() != 1 {
+			continue
+		}
+		args := callArgs(&call.Call)
+		pi := -1
+		for i, a := range args {
+			if a == ev {
+				pi = i
+			}
+		}
+		if pi < 0 || pi >= len(h.Params) {
+			continue
+		}
+		prm := h.Params[pi]
+		// the non-nil region of h
+		var starts []*ssa.BasicBlock
+		if prm.Referrers() != nil {
+			for _, r2 := range *prm.Referrers() {
+				bo, ok := r2.(*ssa.BinOp)
+				if !ok || !(bo.Op == token.EQL || bo.Op == token.NEQ) {
+					continue
+				}
+				if k, ok := bo.Y.(*ssa.Const); !ok || !k.IsNil() {
+					continue
+				}
+				for _, r3 := range *bo.Referrers() {
+					if ifi, ok := r3.(*ssa.If); ok {
+						if bo.Op == token.EQL {
+							starts = append(starts, ifi.Block().Succs[1])
+						} else {
+							starts = append(starts, ifi.Block().Succs[0])
+						}
+					}
+				}
+			}
+		}
+		if len(starts) == 0 {
+			continue
+		}
+		good := true
+		for _, s := range starts {
+			for b := range reachFrom(s, nil) {
+				if !s.Dominates(b) {
+					continue
+				}
+				if ret, ok := b.Instrs[len(b.Instrs)-1].(*ssa.Return); ok {
+					if k, isK := retVal(ret, 0).(*ssa.Const); isK && k.IsNil() {
+						good = false
+					}
+				}
+			}
+		}
+		if good {
+			return call
+		}
+	}
+	return nil
 }
